@@ -250,6 +250,15 @@ func (e *skelEval) run(fn *ssa.Function, args []*big.Int) (*big.Int, error) {
 					res = new(big.Int).Sub(l, r)
 				case token.MUL:
 					res = new(big.Int).Mul(l, r)
+				case token.QUO:
+					// Go's integer division truncates toward zero (big.Int.Quo does)
+					if r.Sign() != 0 {
+						res = new(big.Int).Quo(l, r)
+					}
+				case token.REM:
+					if r.Sign() != 0 {
+						res = new(big.Int).Rem(l, r)
+					}
 				case token.AND:
 					res = new(big.Int).And(toUnsigned(l, x.X.Type(), e.sizes), toUnsigned(r, x.Y.Type(), e.sizes))
 				case token.OR:
